@@ -289,13 +289,37 @@ func c20Enumerate(tier string, emit explore.Emit) {
 			}
 		})
 	})
+	emitDescribe := func(q string, n int) { c20DescribeCase(emit, q, n) }
+	func() {
+		// index spellings (leading zeros, the digits 8 and 9 behind a zero) and every count around the sizes at
+		// which a buffer for the description might be chosen
+		for _, tok := range []string{"$08", "$09", "$010", "$0100", "$0177", "$00065535", "$0000000000000000000012", "$1e3", "$0x10", "$+3", "$-3", "$12abc", "$12_3"} {
+			emitDescribe("select "+tok+" from t where a = $2", 3)
+			emitDescribe(tok, 1)
+		}
+		for n := 1; n <= 300; n++ {
+			emitDescribe(fmt.Sprintf("select $%d", n), 2)
+		}
+		for _, n := range []int{511, 512, 513, 1023, 1024, 1025, 2047, 2048, 4095, 4096, 4097, 16383, 16384, 16385, 32767, 32768, 65534, 65535} {
+			emitDescribe(fmt.Sprintf("select $%d", n), 2)
+			emitDescribe(strings.Repeat("?,", n-1)+"?", 2)
+		}
+	}()
 	forTokenStrings(c20Tokens, sdepth, func(parts []int) {
 		for _, prefix := range []string{"select ", "", " "} {
 			if prefix != "select " && len(parts) > 1 {
 				continue
 			}
-			q := prefix + mk(parts)
-			n := len(parts)
+			emitDescribe(prefix+mk(parts), len(parts))
+		}
+	})
+}
+
+// c20DescribeCase: one query through ParseParameters and through Parse + Describe(S) on a live server (shared by the
+// token enumeration and the explicit lists).
+func c20DescribeCase(emit explore.Emit, q string, n int) {
+	{
+		{
 			emit(explore.Case{Family: "describe", Size: n, Desc: func() any { return map[string]any{"query": q, "via": "Parse+Describe(S)"} }, Run: func() explore.Result {
 				var res explore.Result
 				// the handler calls the documented helper on client-controlled text;
@@ -341,5 +365,5 @@ func c20Enumerate(tier string, emit explore.Emit) {
 				return res
 			}})
 		}
-	})
+	}
 }
